@@ -370,6 +370,33 @@ func (workingMem *WorkingMemory) ResetVariable(variable *Variable) bool {
 	return reseted
 }
 
+// ResetElement resets what an assignment to the slice element or map entry `element` can have made stale: the nodes
+// that read this element, and the nodes that read an element of the same container through a selector that may denote
+// the same element. Two different literal selectors (Arr[0] and Arr[1], M["a"] and M["b"]) never do; any other pair may
+// (Arr[Idx] and Arr[0]).
+// Returns true if any expression was reset, false if otherwise
+func (workingMem *WorkingMemory) ResetElement(element *Variable) bool {
+	reseted := workingMem.ResetVariable(element)
+	if element.Variable == nil || element.ArrayMapSelector == nil {
+
+		return reseted
+	}
+	container := element.Variable.GetSnapshot()
+	for _, other := range workingMem.variableSnapshotMap {
+		if other == element || other.Variable == nil || other.ArrayMapSelector == nil {
+			continue
+		}
+		if other.ArrayMapSelector.isLiteral() && element.ArrayMapSelector.isLiteral() {
+			continue
+		}
+		if other.Variable.GetSnapshot() == container && workingMem.ResetVariable(other) {
+			reseted = true
+		}
+	}
+
+	return reseted
+}
+
 // ResetAll sets all expression evaluated status to false.
 // Returns true if any expression was reset, false if otherwise
 func (workingMem *WorkingMemory) ResetAll() bool {
